@@ -197,26 +197,28 @@ theorem provedTypes_covered :
     ∀ t ∈ provedTypes, ∃ sch, schemaOf t = some sch ∧ sch.fields.all kindProved = true := by
   decide
 
-/-- the record types for which "accepted from text ⇒ encodable to wire" is proved: every schema type except HIP and TKEY
-(their `to_wire` packs the key / other-data length into 16 bits, which `from_text` does not bound — a known finding with
-witnesses `corpus/C05/hip-key-65536-octets.json`, `tkey-key-65536-octets.json`) and AMTRELAY (its two header octets are not
-in schema order; oracle only) -/
+/-- the record types for which "accepted from text ⇒ encodable to wire" is proved: every schema type (HIP and TKEY since
+commit 18b73c9 bounds their key / other data by the 16-bit wire length; witnesses `corpus/C05/hip-key-65536-octets.json`,
+`tkey-key-65536-octets.json`) except AMTRELAY, whose two header octets are not in schema order (oracle only) -/
 def encodableTypes : List String :=
   ["A", "AAAA", "NS", "CNAME", "PTR", "DNAME", "NSAP-PTR", "MX", "AFSDB", "RT", "KX", "LP", "PX", "SRV", "RP", "SOA",
    "TXT", "SPF", "AVC", "NINFO", "RESINFO", "WALLET", "HINFO", "X25", "ISDN", "NAPTR", "CAA", "URI", "DS", "DLV", "CDS",
    "TLSA", "SMIMEA", "SSHFP", "ZONEMD", "DNSKEY", "CDNSKEY", "DHCID", "OPENPGPKEY", "BRID", "HHIT", "L32", "NSEC3PARAM",
    "CH-A", "EUI48", "EUI64", "NID", "L64", "NSAP",
-   "CERT", "DSYNC", "KEY", "RRSIG", "SIG", "NSEC", "CSYNC", "NSEC3", "GPOS", "TSIG", "IPSECKEY", "APL", "WKS"]
+   "CERT", "DSYNC", "KEY", "RRSIG", "SIG", "NSEC", "CSYNC", "NSEC3", "GPOS", "TSIG", "IPSECKEY", "APL", "WKS",
+   "TKEY", "HIP"]
 
+/-- HIP's header is not in schema order: it has its own encoder (`encHip`) and lemma (`hip_encodable`) -/
 theorem encodableTypes_schemas :
-    ∀ t ∈ encodableTypes, ∃ sch, schemaOf t = some sch ∧ schemaEncodable t sch = true := by
+    ∀ t ∈ encodableTypes, ∃ sch, schemaOf t = some sch ∧ (t = "HIP" ∨ schemaEncodable t sch = true) := by
   decide
 
 /-- "a record accepted from text can always be encoded to wire": whatever `dns.rdata.from_text` returns for a type of
 `encodableTypes` — from *any* text, any origin / relativize / relativize_to — is within what `to_wire` can pack:
 integers fit their `struct` formats, character-strings, salts and hashes are at most 255 octets, addresses have 4 / 16
 octets, bitmap windows are below 256 with at most 32 octets, and names can be written against any absolute origin `O`
-(a relative name needs one: `to_wire()` without origin raises `NeedAbsoluteNameOrOrigin` by design).  For the RFC 3597
+(a relative name needs one: `to_wire()` without origin raises `NeedAbsoluteNameOrOrigin` by design); HIP / TKEY keys and
+TKEY other data fit their 16-bit lengths.  For the RFC 3597
 generic syntax the value was re-encoded by `from_text` itself against `wireOrigin env`, so it is encodable against that.
 `encRec` is tied to `Rdata.to_wire` by the correspondence op `c05.wire.enc`; composing with the C02 codec theorems was
 not possible (C02 models the message-level codec over its own field kinds), so `encRec`'s packing guards are stated in
@@ -241,7 +243,14 @@ theorem text_accepts_encodable (tn : String) (htn : tn ∈ encodableTypes) (env 
         obtain ⟨v, t⟩ := p
         simp only [hp, Option.map_some, Option.some.injEq, Parsed.known.injEq] at h
         obtain ⟨rfl, rfl⟩ := h
-        exact record_encodable tn sch env O hO henc toks _ _ hp
+        by_cases hh : tn = "HIP"
+        · subst hh
+          simp only [encRec, if_true]
+          exact hip_encodable sch hsch env O hO toks _ _ hp
+        · simp only [encRec, hh, if_false]
+          rcases henc with e | henc
+          · exact absurd e hh
+          · exact record_encodable tn sch env O hO henc toks _ _ hp
     · intro hg
       simp only [hg, if_true] at h
       split at h
